@@ -351,6 +351,16 @@ func countExits(body *ast.BlockStmt) int {
 	return n
 }
 
+func isNilNode(n ast.Node) bool {
+	switch x := n.(type) {
+	case *ast.BlockStmt:
+		return x == nil
+	case *ast.ForStmt:
+		return x == nil
+	}
+	return n == nil
+}
+
 func genRobust() {
 	l := newLean("Robust")
 	targetNames := map[string]bool{}
@@ -543,6 +553,79 @@ func genRobust() {
 			problem("expandapk.go: robust: switch numGzipStreams not found")
 		}
 		l.defStrStrList("expandSwitch", cases)
+		// the `dataRead` flag: every statement of ExpandApk that mentions it, with where it stands —
+		// "init" (before the member loop), "data-branch" (the else branch of `if !maxStreamsReached`, which ends in
+		// break), "loop" (anywhere else in the loop), "after-switch" (the statement right after the switch on the
+		// number of streams), "other"
+		{
+			var rows [][2]string
+			if ed := f.fn("ExpandApk"); ed != nil {
+				var loop *ast.ForStmt
+				var dataBranch *ast.BlockStmt
+				afterSwitch := ast.Stmt(nil)
+				for i, st := range ed.Body.List {
+					if fs, ok := st.(*ast.ForStmt); ok && fs.Cond == nil && loop == nil {
+						loop = fs
+						ast.Inspect(fs.Body, func(n ast.Node) bool {
+							if is, ok := n.(*ast.IfStmt); ok && f.src(is.Cond) == "!maxStreamsReached" {
+								if eb, ok := is.Else.(*ast.BlockStmt); ok {
+									dataBranch = eb
+								}
+							}
+							return true
+						})
+					}
+					if sw, ok := st.(*ast.SwitchStmt); ok && sw.Tag != nil && f.src(sw.Tag) == "numGzipStreams" && i+1 < len(ed.Body.List) {
+						afterSwitch = ed.Body.List[i+1]
+					}
+				}
+				within := func(n ast.Node, outer ast.Node) bool {
+					return outer != nil && !isNilNode(outer) && n.Pos() >= outer.Pos() && n.End() <= outer.End()
+				}
+				mention := func(st ast.Stmt) bool { return strings.Contains(f.src(st), "dataRead") }
+				var visit func(list []ast.Stmt)
+				visit = func(list []ast.Stmt) {
+					for _, st := range list {
+						if !mention(st) {
+							continue
+						}
+						switch x := st.(type) {
+						case *ast.ForStmt:
+							visit(x.Body.List)
+							continue
+						case *ast.BlockStmt:
+							visit(x.List)
+							continue
+						case *ast.IfStmt:
+							if !strings.Contains(f.src(x.Cond), "dataRead") {
+								visit(x.Body.List)
+								if eb, ok := x.Else.(*ast.BlockStmt); ok {
+									visit(eb.List)
+								}
+								continue
+							}
+						}
+						ctx := "other"
+						switch {
+						case st == afterSwitch:
+							ctx = "after-switch"
+						case dataBranch != nil && within(st, dataBranch):
+							ctx = "data-branch"
+							if how := branchHow(dataBranch); how != "break" {
+								ctx = "data-branch(" + how + ")"
+							}
+						case loop != nil && within(st, loop):
+							ctx = "loop"
+						case loop != nil && st.End() <= loop.Pos():
+							ctx = "init"
+						}
+						rows = append(rows, [2]string{ctx, f.stmtSrc(st)})
+					}
+				}
+				visit(ed.Body.List)
+			}
+			l.defStrStrList("expandDataRead", rows)
+		}
 		// the same switch as numbers: (number of streams, signatureIndex, controlDataIndex, packageIndex)
 		var rows []string
 		for _, c := range cases {
